@@ -49,3 +49,24 @@ Example C10_example :
   map (fun p => (pn Z Z p, shown Z Z p)) (run Z Z Z.eqb znum (fun _ => 0%Z) (fun v => Z.ltb v 0) ps [ORemove Z Z 1%Z false; OAdd Z Z 1%Z 13%Z; ORemove Z Z 2%Z false; OAdd Z Z 2%Z (-5)%Z])
   = [(3%Z, true); (1%Z, false); (2%Z, true)].
 Proof. vm_compute. split; reflexivity. Qed.
+
+(* ---- values: what add() escapes (Template._surface_escape; coq/Escape.v) ---- *)
+From MW Require Import Escape EscapeProofs.
+
+(* after escaping, the character occurs nowhere outside the brackets of a nested node: not in the value's own text and
+   not inside a heading or an external link, which have no brackets of their own (F37) *)
+Theorem C10_escape_leaves_no_bare_separator : forall c ent, ~ In c ent -> forall v, ~ In c (bare (escape c ent v)).
+Proof. exact escape_protects. Qed.
+
+(* a value without such an occurrence is stored as it was given *)
+Theorem C10_escape_changes_nothing_else : forall c ent v, ~ In c (bare v) -> escape c ent v = v.
+Proof. exact escape_id. Qed.
+
+Example C10_escape_example :
+  let pipe := 124%N in let ent := [38; 35; 49; 50; 52; 59]%N in
+  str_value (escape pipe ent [IText [97; 124]%N; IClosed [123; 124; 125]%N; IOpen [61]%N [([IText [124]%N], [61]%N)]])
+  = ([97] ++ ent ++ [123; 124; 125] ++ [61] ++ ent ++ [61])%N.
+Proof. vm_compute. reflexivity. Qed.
+
+Print Assumptions C10_escape_leaves_no_bare_separator.
+Print Assumptions C10_escape_changes_nothing_else.
